@@ -229,6 +229,9 @@ class Source:
                         on_sec(ug, i, lambda r, el: (set_attr(el, "zzNotDeclared"), el.findtext("name"))[1]), (kind, 0)))
             pos.append(("wrong-section-attribute", f"{kind} {nm} + extensionAllowed",
                         on_sec(ug, i, lambda r, el: (set_attr(el, "extensionAllowed"), el.findtext("name"))[1]), (kind, 0)))
+            for wa, wv in self.tag_only_attributes():
+                pos.append(("wrong-section-attribute", f"{kind} {nm} + {wa}",
+                            on_sec(ug, i, lambda r, el, wa=wa, wv=wv: (set_attr(el, wa, wv), el.findtext("name"))[1]), (kind, 0, wa)))
             if e.tag == "unit" and attr(e, "conversionFactor") is not None:
                 for bad in ("0", "-1.0", "abc"):
                     pos.append(("conversion-factor", f"unit {nm} = {bad}",
@@ -259,6 +262,10 @@ class Source:
                 nm = e.findtext("name")
                 pos.append(("undeclared-attribute", f"{kind} {nm}",
                             on_sec(g, i, lambda r, el: (set_attr(el, "zzNotDeclared"), el.findtext("name"))[1]), (kind, 0)))
+                for wa, wv in self.tag_only_attributes():
+                    pos.append(("wrong-section-attribute", f"{kind} {nm} + {wa}",
+                                on_sec(g, i, lambda r, el, wa=wa, wv=wv: (set_attr(el, wa, wv), el.findtext("name"))[1]),
+                                (kind, 0, wa)))
                 if attr(e, "conversionFactor") is not None:
                     pos.append(("conversion-factor", f"modifier {nm} = -3",
                                 on_sec(g, i, lambda r, el: (set_attr(el, "conversionFactor", "-3"), el.findtext("name"))[1]),
@@ -285,6 +292,17 @@ class Source:
                 if self.entry_hed_id(e) is not None and own:
                     pos.append(("hed-id-changed", f"{kind} {nm}", on_sec(g, i, self.changed_id), (kind, 0)))
         return pos
+
+    def tag_only_attributes(self):
+        """Attributes declared for tags only, with a value that exists in this schema (seeded on units, classes, modifiers)."""
+        ucs = [d.findtext("name") for d in self.root.iter("unitClassDefinition")]
+        vcs = [d.findtext("name") for d in self.root.iter("valueClassDefinition")]
+        out = [("takesValue", None)]
+        if ucs:
+            out.append(("unitClass", ucs[0]))
+        if vcs:
+            out.append(("valueClass", vcs[0]))
+        return out
 
     @staticmethod
     def entry_hed_id(e):
